@@ -10,6 +10,7 @@ import (
 	"os/exec"
 	"path/filepath"
 	"sort"
+	"strconv"
 	"strings"
 	"unicode/utf8"
 
@@ -193,8 +194,9 @@ func (s *Suite) Execute(set *plug.Set) (*Outcome, error) {
 	var plan bytes.Buffer
 	for _, c := range s.Cases {
 		sh := byKey[c.RpcKey]
+		c.A.Body.Framing = framingOf(c)
 		op := drv.Op{Op: "raw", Case: c.ID, Call: 1, Pkg: s.pkgOf(sh), Verb: sh.Rpc.Verb, URL: c.C.URL,
-			BodyB64: base64.StdEncoding.EncodeToString(c.C.Body), NoBody: c.C.NoBody, Hook: hookString(c.A.Hook)}
+			BodyB64: base64.StdEncoding.EncodeToString(c.C.Body), NoBody: c.C.NoBody, Hook: hookString(c.A.Hook), Framing: c.A.Body.Framing}
 		for _, h := range c.C.Headers {
 			if utf8.ValidString(h[1]) {
 				op.Headers = append(op.Headers, h)
@@ -358,6 +360,12 @@ func (s *Suite) Trace(out *Outcome, cases []*Case) ([]string, []int, error) {
 		}
 		for i := range a.RuleViol {
 			a.RuleViol[i] = strings.ToLower(a.RuleViol[i])
+		}
+		if a.Body.Framing == "" { // (a server the harness does not choose the framing for)
+			a.Body.Framing = "sized"
+			if c.C.NoBody {
+				a.Body.Framing = "none"
+			}
 		}
 		add(c.ID, map[string]any{"event": "Req", "case": c.ID, "req": a})
 		if sh.Published != nil {
@@ -571,10 +579,13 @@ func AbstractRespBare(e drv.Event) map[string]any {
 
 // BareRequest is the abstract request of a POST to an RPC whose message is not modelled field by
 // field (fields = <<>>): only the body class, the content type and the outcome are judged.
-func BareRequest(bodyCls string) AReq {
+func BareRequest(bodyCls string, framing ...string) AReq {
 	a := AReq{}
 	a.Rpc = Rpc{Name: "M", Verb: "POST"}
-	a.Body = Body{Cls: bodyCls, Ctype: "json"}
+	a.Body = Body{Cls: bodyCls, Ctype: "json", Framing: "sized"}
+	if len(framing) > 0 {
+		a.Body.Framing = framing[0]
+	}
 	a.Handler.Kind, a.Handler.Val = "ok", "RESP"
 	a.Server = "go"
 	a.normalize()
@@ -628,4 +639,21 @@ func ValidateSegments(segs [][]string, dev []string, maxReject int) (accepted []
 		}
 	}
 	return
+}
+
+// framingOf picks how a case's body travels: with its length announced, or chunked (a streaming
+// client, a re-chunking proxy, HTTP/2 without content-length) - by a hash of the case and the seed,
+// so that every class of body meets both over the cases of a run.
+func framingOf(c *Case) string {
+	if c.C.NoBody {
+		return "none"
+	}
+	h := uint32(c.ID)*2654435761 + uint32(len(c.C.Body))*40503
+	if s, err := strconv.Atoi(os.Getenv("VERIF_SEED")); err == nil {
+		h += uint32(s) * 97
+	}
+	if (h>>9)&1 == 1 {
+		return "chunked"
+	}
+	return "sized"
 }
